@@ -195,6 +195,13 @@ def run_check(pid, main):
         raise
     except BaseException:
         traceback.print_exc()
+        if chk.violations:
+            # violations already reproduced and reported stay violations
+            try:
+                chk.finish(explanation='check aborted by an internal error after reporting violations')
+            except SystemExit:
+                pass
+            sys.exit(1)
         chk.fail_closed.append('internal error: ' + traceback.format_exc().strip().split('\n')[-1])
         try:
             chk.finish(explanation='check aborted by an internal error; nothing is claimed for this run')
